@@ -213,3 +213,12 @@ Lemma first_enter_time limit delay t0 l tb r s :
 Proof.
   intros Hc H. destruct (delay_then_enter _ _ _ _ _ _ _ _ _ Hc H) as (_ & _ & ->). cbn. lia.
 Qed.
+
+(* a failure with the restart budget exhausted -- n_restarts at OR BEYOND the limit in force -- is final *)
+Lemma no_restart_without_budget limit delay n p t :
+  may_restart limit n = false -> lstep limit delay (Running n p) t (LExit Exc) = Some (Ended Exc).
+Proof. intros H. cbn. rewrite H. reflexivity. Qed.
+
+Lemma may_restart_spec limit n :
+  may_restart limit n = true <-> match limit with None => True | Some l => (n < l)%nat end.
+Proof. destruct limit as [l|]; cbn; [apply Nat.ltb_lt|tauto]. Qed.
